@@ -256,6 +256,11 @@ def val_eval(t, env):
     tag = t[0]
     if tag == 'const':
         return t[1]
+    if tag in ('tuple', 'list', 'set'):
+        vals = [val_eval(x, env) for x in t[1]]
+        if any(v is UNKNOWN for v in vals):
+            return UNKNOWN
+        return tuple(vals)
     if tag == 'call' and T.dotted(t[1]) == 'getattr' and len(t[2]) in (2, 3) and t[2][1][0] == 'const':
         a = ('attr', t[2][0], t[2][1][1])
         if a in env:
